@@ -59,6 +59,15 @@ Theorem C13_str_injective :
   forall r1 r2, wf_rels r1 = true -> wf_rels r2 = true -> rel_str r1 = rel_str r2 -> r1 = r2.
 Proof. exact str_injective. Qed.
 
+(** 5b. Unique readability: every text the formatter can produce from a structure of the
+        domain has exactly one such structure behind it, and parsing the text returns
+        that one, without a warning. *)
+Theorem C13_formatted_text_unique :
+  forall s, (exists rels, wf_rels rels = true /\ rel_str rels = s) ->
+  exists rels, (wf_rels rels = true /\ rel_str rels = s /\ parse_relations s = Ok (rels, 0%N))
+               /\ forall r', wf_rels r' = true -> rel_str r' = s -> r' = rels.
+Proof. exact formatted_text_unique. Qed.
+
 (** 6. The bridge to the correspondence check (Deb822/RelationCheck.v): for every case
        of every constructor — every structure in or outside the domain, every observed
        string / parse / exception — an observation that agrees with the model ([agree])
@@ -139,6 +148,7 @@ Print Assumptions C13_roundtrip_judgement.
 Print Assumptions C13_leaf_recognises_formatted_atom.
 Print Assumptions C13_atom_inverse.
 Print Assumptions C13_str_injective.
+Print Assumptions C13_formatted_text_unique.
 Print Assumptions C13_agree_implies_holds.
 Print Assumptions C13_agree_implies_roundtrip.
 Print Assumptions C13_judged_is_needed.
